@@ -186,6 +186,9 @@ func (p *PDU) RespReadBits() ([]bool, error) {
 	}
 
 	count := p.Data[0]
+	if len(p.Data) < 1+(int(count)+7)/8 {
+		return []bool{}, errors.New("RespReadBits not enough data")
+	}
 	ret := make([]bool, count)
 	byteIndex := 0
 	bitIndex := uint(0)
@@ -197,6 +200,32 @@ func (p *PDU) RespReadBits() ([]bool, error) {
 			byteIndex++
 			bitIndex = 0
 		}
+	}
+
+	return ret, nil
+}
+
+// RespReadBitsCount reads count coils or discrete inputs from a
+// response PDU. The response only carries a byte count, so the
+// number of bits requested must be supplied by the caller.
+func (p *PDU) RespReadBitsCount(count uint16) ([]bool, error) {
+	switch p.FunctionCode {
+	case FuncCodeReadCoils, FuncCodeReadDiscreteInputs:
+		// ok
+	default:
+		return []bool{}, errors.New("invalid function code to read bits")
+	}
+
+	byteCount := (int(count) + 7) / 8
+
+	if len(p.Data) != 1+byteCount || int(p.Data[0]) != byteCount {
+		return []bool{}, errors.New("RespReadBits wrong amount of data")
+	}
+
+	ret := make([]bool, count)
+
+	for i := range ret {
+		ret[i] = (p.Data[1+i/8]>>(uint(i)%8))&0x1 == 0x1
 	}
 
 	return ret, nil
